@@ -124,6 +124,80 @@ def run(ctx):
                               'fill-carrying attributes honoured when a variable is defined on disk %s differ from those honoured in '
                               'memory (copyVariable %s, masked allocation %s): a fill value recognised in memory is dropped at definition time'
                               % (sorted(set_def), sorted(set_copy), sorted(set_alloc))))
+    # ---- R-FILLZERO: a fill value of 0 is a fill value - the looked-up value is tested against None, never for truth
+    ctx.rule('R-FILLZERO', 'a looked-up fill value is tested with `is None` / `is not None`, never by truthiness (0 and 0.0 are legal fill values)')
+    import re as _re2
+    nz = 0
+    for rp_, q_, f_ in ((RP, 'Pseudo2NetCDF.addVariable', av), ('core/_files.py', 'PseudoNetCDFFile.copyVariable', cv), ('core/_variables.py', 'PseudoNetCDFMaskedVariable.__new__', mv)):
+        loops_ = dict()
+        for st in iter_stmts(f_.body):
+            if isinstance(st, ast.For) and isinstance(st.target, ast.Name) and isinstance(st.iter, (ast.Tuple, ast.List)) and all(const_str(e) is not None for e in st.iter.elts):
+                loops_[st.target.id] = [const_str(e) for e in st.iter.elts]
+
+        def is_fill_lookup(c):
+            if not isinstance(c, ast.Call):
+                return False
+            key = None
+            if dotted(c.func) == 'getattr' and len(c.args) >= 2:
+                key = c.args[1]
+            elif isinstance(c.func, ast.Attribute) and c.func.attr in ('get', 'pop') and c.args and 'kw' in norm(c.func.value).lower():
+                key = c.args[0]
+            if key is None:
+                return False
+            names = [const_str(key)] if const_str(key) is not None else loops_.get(key.id, []) if isinstance(key, ast.Name) else []
+            return any(_re2.search('fill|missing', n_, _re2.I) for n_ in names if n_)
+        held = set(st.targets[0].id for st in iter_stmts(f_.body) if isinstance(st, ast.Assign) and len(st.targets) == 1 and isinstance(st.targets[0], ast.Name)
+                   and is_fill_lookup(st.value))
+
+        def is_fill_value(e):
+            return (isinstance(e, ast.Name) and e.id in held) or is_fill_lookup(e)
+        badt = []
+        for n_ in ast.walk(f_):
+            tests = []
+            if isinstance(n_, (ast.If, ast.IfExp, ast.While)):
+                tests.append(n_.test)
+            if isinstance(n_, ast.BoolOp):
+                tests.extend(n_.values[:-1] if not isinstance(getattr(n_, '_parent', None), (ast.If, ast.IfExp, ast.While)) else n_.values)
+            if isinstance(n_, ast.UnaryOp) and isinstance(n_.op, ast.Not):
+                tests.append(n_.operand)
+            for t_ in tests:
+                if is_fill_value(t_):
+                    badt.append(t_)
+        nz += 1
+        wz = 'src/PseudoNetCDF/%s %s' % (rp_, q_)
+        if badt:
+            ctx.violation(Finding('R-FILLZERO', rp_, q_, api.stmt_of(badt[0]), 'the looked-up fill value %s is tested for truth: a fill value of 0 / 0.0 counts as absent, the disk variable gets no '
+                                  '_FillValue and its masked cells come back as ordinary zeros' % norm(badt[0])), oid=q_)
+        else:
+            ctx.ok('R-FILLZERO', q_, wz, '%d fill-value names held; none tested for truth' % len(held))
+    # ---- R-NCATTRAPI: attributes reach the destination through setncattr
+    ctx.rule('R-NCATTRAPI', 'global and variable attributes are written with <destination>.setncattr(name, value); python attribute assignment on a netCDF4 object refuses '
+             'the names of its own members (path, name, data_model, scale, mask, ...) and the attribute is dropped')
+    na = 0
+    for q_, dest_ in (('Pseudo2NetCDF.addGlobalProperties', 'nfile'), ('Pseudo2NetCDF.addVariableProperties', 'nvar')):
+        f_ = mod.func(q_)
+        wz = 'src/PseudoNetCDF/%s %s' % (RP, q_)
+        good_, bad_ = [], []
+        for c in walk_expr(f_):
+            if not isinstance(c, ast.Call):
+                continue
+            if isinstance(c.func, ast.Attribute) and c.func.attr == 'setncattr' and norm(c.func.value) == dest_:
+                good_.append(c)
+            if dotted(c.func) == 'setattr' and c.args and norm(c.args[0]) == dest_:
+                bad_.append(c)
+        for st in iter_stmts(f_.body):
+            if isinstance(st, ast.Assign) and any(isinstance(t, ast.Attribute) and norm(t.value) == dest_ for t in st.targets):
+                bad_.append(st)
+        na += len(good_) + len(bad_)
+        if bad_:
+            ctx.violation(Finding('R-NCATTRAPI', RP, q_, api.stmt_of(bad_[0]) if not isinstance(bad_[0], ast.stmt) else bad_[0],
+                                  'the attribute is stored with python attribute assignment on %s: for a name that is a member of the netCDF4 object (path, name, data_model, '
+                                  'file_format, parent, scale, mask, ...) that raises or rebinds the member, and the attribute is missing from the written file' % dest_), oid=q_)
+        elif good_:
+            ctx.ok('R-NCATTRAPI', q_, wz, '%d setncattr calls on %s' % (len(good_), dest_))
+        else:
+            ctx.undec('R-NCATTRAPI', q_, wz, 'no attribute store on %s found' % dest_)
+    ctx.floor('attribute stores judged by R-NCATTRAPI', na, 4)
     # ---- R-KWCOPY
     kdef = [st for st in iter_stmts(av.body) if isinstance(st, ast.Assign) and isinstance(st.targets[0], ast.Name) and st.targets[0].id == 'create_variable_kwds']
     if not kdef:
